@@ -53,6 +53,11 @@ func checkC20(c srvCase) (o vstat.Outcome) {
 	t.settle()
 	// stream outcome clauses are evaluated before teardown
 	for _, sub := range t.subs {
+		if !sub.honest || sub.epochSent > sub.epochCur {
+			// the call must end with an error: bounded wait, the handler may not have run yet when things looked quiet
+			strm := sub.strm
+			waitFor(8*time.Second, func() bool { e, _ := strm.ended(); return e })
+		}
 		ended, err := sub.strm.ended()
 		if !sub.honest {
 			if !ended || err == nil {
@@ -203,7 +208,13 @@ func genC22(t *rapid.T) srvCase {
 	ops := genSops(t, []string{"attach", "attach", "attach", "detach", "detach", "send", "ack", "gate", "release"}, 2, 3, 12)
 	for i := range ops {
 		if ops[i].Op == "send" {
-			ops[i].Kind, ops[i].Epoch = "honest", "current"
+			// honest senders; some still stamp the previous epoch (they have not processed the latest announcement)
+			ops[i].Kind = "honest"
+			if ops[i].Epoch != "stale" && ops[i].Epoch != "zero" {
+				ops[i].Epoch = "current"
+			} else {
+				ops[i].Epoch = "stale"
+			}
 		}
 		if ops[i].Op == "ack" {
 			ops[i].X = "last"
